@@ -517,7 +517,10 @@ void Node::schedule_assigned_fetch(const protocol::AnnouncePayload& payload) {
         state.endpoint = payload.endpoint;
     }
     state.manifest_uri = payload.manifest_uri;
-    state.manifest_expires = manifest.expires_at;
+    // A far-future manifest expiry is capped at the maximum TTL, like every other
+    // lifetime derived from a received manifest.
+    state.manifest_expires = std::min(manifest.expires_at,
+                                      std::chrono::system_clock::now() + config_.max_manifest_ttl);
     state.next_attempt = now;
     state.in_flight = false;
     state.last_dispatch = std::chrono::steady_clock::time_point{};
@@ -2056,6 +2059,39 @@ void Node::tick() {
         {
             SchedulerLock lock(scheduler_mutex_);
             dht_.sweep_expired();
+
+            // Cached manifests and the swarm plans built from them must not outlive the
+            // manifest: drop them once it has expired, or once nothing derived from it
+            // (chunk record, key shares, pending fetch) is left.
+            const auto wall_now = std::chrono::system_clock::now();
+            std::unordered_set<std::string> stored_keys;
+            for (const auto& entry : chunk_store_.snapshot()) {
+                stored_keys.insert(entry.key);
+            }
+            for (auto it = manifest_cache_.begin(); it != manifest_cache_.end();) {
+                const auto& manifest = it->second;
+                const auto pending_it = pending_chunk_fetches_.find(it->first);
+                const bool pending_live = pending_it != pending_chunk_fetches_.end()
+                    && (pending_it->second.manifest_expires == std::chrono::system_clock::time_point{}
+                        || wall_now < pending_it->second.manifest_expires);
+                const bool expired = wall_now >= manifest.expires_at;
+                const bool orphaned = !pending_live
+                    && !stored_keys.contains(it->first)
+                    && !dht_.shard_record(manifest.chunk_id).has_value();
+                if (expired || orphaned) {
+                    swarm_plans_.erase(it->first);
+                    it = manifest_cache_.erase(it);
+                } else {
+                    ++it;
+                }
+            }
+            for (auto it = swarm_plans_.begin(); it != swarm_plans_.end();) {
+                if (!manifest_cache_.contains(it->first)) {
+                    it = swarm_plans_.erase(it);
+                } else {
+                    ++it;
+                }
+            }
         }
         last_cleanup_ = now;
     }
